@@ -66,8 +66,8 @@ Definition run_nic (p : plat) (r : nicrow) (prefix : option Z) (octets : list by
 
 Definition run_names (p : plat) : jv :=
   match find (fun n => plat_eqb (nm_plat n) p) names_rows with
-  | Some n => JL [ JL (map jstr (nm_dir n)); JL (map jstr (nm_methods n));
-                   JL (map jstr (filter (fun d => negb (mem d (nm_dir n))) (doc_names p)));
+  | Some n => JL [ JL (map jstr (nm_dir n)); JL (map jstr (nm_methods n)); JL (map jstr (nm_all n));
+                   JL (map jstr (filter (fun d => negb (mem d (nm_all n))) (doc_names p)));
                    JL (map jstr (filter (fun d => negb (mem d (nm_methods n))) (doc_methods p))) ]
   | None => JC "NoRow" []
   end.
